@@ -53,11 +53,12 @@ Definition qname_ok (env : list frame) (p : option str) (ats : list attr) : bool
       end
   end.
 
-(* xsi:nil is spelled true / false / 0 [proposed C02:xsi-nil-spelled-1] *)
+(* xsi:nil is spelled as XML Schema spells booleans: the code lower-cases the
+   value first, so "TRUE" (not a valid xsd:boolean) would also count as nil *)
 Definition nil_ok (env : list frame) (ats : list attr) : bool :=
   match find_xsi env ats s_nil with
   | None => true
-  | Some v => str_eqb v s_true || (negb (str_eqb (lower v) s_true) && negb (str_eqb v s_one))
+  | Some v => str_eqb v s_true || str_eqb v s_one || negb (str_eqb (lower v) s_true)
   end.
 
 (* what Handler.endElement guarantees: an element with children has no
